@@ -222,7 +222,7 @@ class C01(Prop):
 
     def strategy(self, tier):
         op = st.tuples(st.sampled_from(['reg', 'reg', 'unreg', 'unreg', 'unreg_nosettle', 'addh', 'addh', 'rmh', 'probe', 'probe',
-                                        'probe', 'fire', 'flush', 'recycle', 'recycle', 'detach_race', 'unreg_nosettle', 'in_batch', 'in_batch']),
+                                        'probe', 'fire', 'flush', 'recycle', 'recycle', 'detach_race', 'unreg_nosettle', 'in_batch', 'in_batch', 'warm_rm']),
                        st.integers(0, 13), st.integers(0, 13), st.one_of(st.integers(0, 39), st.integers(0, 71))).map(list)
         return st.fixed_dictionaries({
             'pool': st.lists(st.tuples(st.sampled_from(SHAPES), st.sampled_from(['a', 'b', '*'])).map(list), min_size=2, max_size=7),
@@ -341,6 +341,29 @@ class C01(Prop):
                             else:
                                 c.removeHandler(meth, '*')
                             w.ops_since += 1
+                    elif op == 'warm_rm':
+                        # warm the cache with an event one live handler of c matches, remove exactly that handler, fire the
+                        # same event again: nothing else changes in between
+                        live = sorted(h for h, (names, chan) in w.model[c.idx].items() if not (not names and chan == '*'))
+                        if live:
+                            hid = live[k % len(live)]
+                            names, chan = w.model[c.idx][hid]
+                            name = names[j % len(names)] if names else NAMES[j % 2]
+                            if isinstance(chan, tuple):
+                                t = w.pool[chan[1]].channel
+                            else:
+                                t = c.channel if chan is None else (c if chan == 'self' else chan)
+                            src = root_of(c)
+                            for phase in (0, 1):
+                                tagc[0] += 1
+                                src.fire(EV[name](tagc[0]), t)
+                                settle(src)
+                                if phase == 0:
+                                    w.model[c.idx].pop(hid)
+                                    meth = self._find_method(c, hid)
+                                    c.removeHandler(meth) if names else c.removeHandler(meth, '*')
+                                    w.ops_since += 1
+                            w.classes.add('handler-removed-from-warm-cache')
                     elif op == 'probe':
                         do_probe(c, j, k)
                     elif op == 'fire':
